@@ -17,7 +17,9 @@ LCell(n) == CASE n = "none" -> <<>>
               [] n = "steep" -> <<<<8,0,0>>,<<-5,9,0>>,<<7,-7,10>>>>      \* |xy| > lx/2, |xz| > lx/2, |yz| > ly/2
               \* rendered at 1e-6 Angstrom per unit: a 20 A box whose tilt factors (0.0002, 0, -0.0003) show only in the last printed digits
               [] n = "fine" -> <<<<20000000,0,0>>,<<200,20000000,0>>,<<0,-300,20000000>>>>
-CellNames == {"none", "ortho", "tri", "steep"}
+              [] n = "alln" -> <<<<8,0,0>>,<<-2,9,0>>,<<-1,-3,10>>>>      \* every tilt factor negative
+              [] n = "yzn" -> <<<<8,0,0>>,<<0,9,0>>,<<0,-3,10>>>>        \* only yz, negative
+CellNames == {"none", "ortho", "tri", "steep", "alln", "yzn"}
 Grp(g, i) == CASE g = "zero" -> 0 [] g = "contig" -> (i % 2) [] g = "gaps" -> 2 * (i % 2) [] g = "high" -> 3 + (i % 2)
 Shift(s, p) == CASE s = "in" -> p [] s = "neg" -> <<-p[1], p[2] - 7, -p[3]>> [] s = "far" -> <<p[1] + 20, p[2], p[3] - 30>>
 
